@@ -1150,7 +1150,10 @@ def fam_zeroize(rng):
     out = []
     mi = 0
     for n, ups in ((100, [100]), (1500, [1500]), (9217, [1024] * 9 + [1]), (7 * 1024, [1024] * 7),
-                   (16 * 1024 + 70, [4096, 4096, 8192 + 70]), (3 * 1024 + 65, [2048, 1024 + 65]), (65536, [65536])):
+                   (16 * 1024 + 70, [4096, 4096, 8192 + 70]), (3 * 1024 + 65, [2048, 1024 + 65]), (65536, [65536]),
+                   # splits that go through the buffered-block path: a partly filled buffer is topped up and input is left
+                   (140, [100, 40]), (70, [1] * 70), (2198, [2098, 90, 10]), (200, [63, 2, 135]), (1100, [1000, 100]),
+                   (130, [64, 1, 65])):
         for reset_after in (False, True):
             out.append(_with({"kind": "zeroize_probe", "input": _inp(n), "updates": ups, "reset_after": reset_after},
                              MODES[mi % 3]))
